@@ -99,16 +99,39 @@ class Contracts:
         return self.refs[(qualname, variant)][2]
 
     # ------------------------------------------------------------------
-    def terms_for(self, qualname, variant=None):
+    def terms_for(self, qualname, variant=None, pid=None):
         """[(case-name, code canonical term, ref canonical term)]"""
         rm, rfi, meta = self.refs[(qualname, variant)]
         cfi = self.program.func(qualname)
         cl = T.FuncLower(self.program, cfi)
         rl = T.FuncLower(self.program, rfi, param_names=None)
-        if len(cl.params) != len(rl.params):
+        extra_defaults = {}
+        if len(cl.params) > len(rl.params):
+            # additional trailing parameters that have defaults: existing callers do not pass them, so the behaviour the
+            # property speaks about is the body with those parameters at their defaults
+            dflt = dict(cl.defaults())
+            extra = cl.params[len(rl.params):]
+            a = cfi.node.args
+            if all(p in dflt for p in extra) and not a.vararg and not a.kwarg:
+                extra_defaults = {p: dflt[p] for p in extra}
+            else:
+                raise ParamMismatch(f"{qualname}: code has parameters {cl.params}, reference {rl.params}")
+        elif len(cl.params) != len(rl.params):
             raise ParamMismatch(f"{qualname}: code has parameters {cl.params}, reference {rl.params}")
-        rl.param_names = cl.params
+        rl.param_names = cl.params[:len(rl.params)]
         cterm, rterm = cl.term(), rl.term()
+        if extra_defaults:
+            cterm = T.subst(cterm, extra_defaults)
+        aspects = (meta.get("attrs_for") or {}).get(pid) if pid else None
+        if aspects is not None and cl.params:
+            # this property depends only on some attributes the constructor establishes
+            obj0 = T.V(cl.params[0])
+
+            def only(t):
+                if t[0] in ('ret', 'raise') and len(t) == 3:
+                    return (t[0], t[1], tuple(e for e in t[2] if not (e[0] == 'setattr' and e[1] == obj0 and e[2] not in aspects)))
+                return None
+            cterm, rterm = T.replace(cterm, only), T.replace(rterm, only)
         if cfi.name in ("__init__", "__new__"):
             # a constructor may initialise additional attributes the specification does not mention (they are judged where they
             # are read): stores to attributes of the object under construction that the reference never assigns are ignored
@@ -126,9 +149,10 @@ class Contracts:
             if obj is not None and ref_attrs:
                 cterm = T.replace(cterm, strip)
             self.last_extra_attrs = sorted(extra)
-        cdef = ('dict', tuple(('kw', T.C(k), v) for k, v in cl.defaults()))
-        rdef = ('dict', tuple(('kw', T.C(k2), v) for (k, v), k2 in zip(rl.defaults(), [k for k, _ in cl.defaults()])))
-        if len(cl.defaults()) != len(rl.defaults()):
+        cdef = ('dict', tuple(('kw', T.C(k), v) for k, v in cl.defaults() if k not in extra_defaults))
+        cd = [kv for kv in cl.defaults() if kv[0] not in extra_defaults]
+        rdef = ('dict', tuple(('kw', T.C(k2), v) for (k, v), k2 in zip(rl.defaults(), [k for k, _ in cd])))
+        if len(cd) != len(rl.defaults()):
             rdef = ('dict', tuple(('kw', T.C(k), v) for k, v in rl.defaults()))
         decs = lambda fi: ('list', tuple(T.G(d or '?') for d in fi.decorators))
         cfull = ('tuple', (decs(cfi), cdef, cterm))
@@ -164,9 +188,9 @@ class Contracts:
                 out.append((nm.strip(), T.canonical(T.replace(c0, rep2)), T.canonical(T.replace(r0, rep2))))
         return out, cfi, rfi, meta
 
-    def check(self, qualname, variant=None):
+    def check(self, qualname, variant=None, pid=None):
         try:
-            cases, cfi, rfi, meta = self.terms_for(qualname, variant)
+            cases, cfi, rfi, meta = self.terms_for(qualname, variant, pid)
         except ParamMismatch as e:
             return Result("inconclusive", str(e), key=f"E2.equiv:{qualname}:params")
         alldiffs = []
